@@ -507,4 +507,6 @@ pub fn run(ctx: &mut Ctx) {
     }
     out.flush().unwrap();
     ctx.notes.push(format!("engine cases written to {path}"));
+    // ---- the convenience methods of the builders build what their general forms build
+    crate::api::run(ctx);
 }
